@@ -237,7 +237,7 @@ Core(X, A, U, n) ==
        src |-> "choice", asg |-> IF vis = 2 THEN "y" ELSE ""]
     ELSE
       LET sel  == RevOn(X, A, S.selects) # <<>>
-          imp  == RevOn(X, A, S.implies) # <<>> /\ DirectDep(X, A, n) = 2
+          imp  == RevOn(X, A, S.implies) # <<>> /\ DirectDep(X, A, n) = 2 /\ A.inj.s[n] = NoVal   \* an injected default displaces imply
           ds   == DefaultsOf(X, A, n)
           di   == FirstTrue(X, A, ds)
           dval == IF di = 0 THEN 0 ELSE EvalE(X, A, ds[di].v)
@@ -259,7 +259,7 @@ Core(X, A, U, n) ==
         hi    == IF ri = 0 THEN 0 ELSE NumOr0(type, AtomStr(X, A, rs[ri].hi))
         sets  == RevOn(X, A, S.sets)
         forced == sets # <<>>
-        wsets == IF DirectDep(X, A, n) = 2 THEN RevOn(X, A, S.wsets) ELSE <<>>
+        wsets == IF DirectDep(X, A, n) = 2 /\ A.inj.s[n] = NoVal THEN RevOn(X, A, S.wsets) ELSE <<>>   \* ... and `set default`
         lit(r) == IF num THEN Norm(type, r.e.v[2]) ELSE AtomStr(X, A, r.e.v)
         userOk == vis = 2 /\ u # NoVal
                   /\ (num => (IsNum(type, u) /\ (ri = 0 \/ (lo <= NumOf(type, u) /\ NumOf(type, u) <= hi))))
